@@ -4,7 +4,7 @@ from fractions import Fraction
 
 import fe
 
-TRANSPARENT = {"ImplicitCastExpr", "ParenExpr", "ExprWithCleanups", "MaterializeTemporaryExpr",
+TRANSPARENT = {"ImplicitCastExpr", "ParenExpr", "ExprWithCleanups", "MaterializeTemporaryExpr", "CXXStdInitializerListExpr",
                "CXXBindTemporaryExpr", "ConstantExpr", "FullExpr", "SubstNonTypeTemplateParmExpr"}
 
 
@@ -152,6 +152,16 @@ def index(objs):
             if n.get("isImplicit"):
                 return
             q = prefix + [name]
+            if k != "FunctionDecl" and parent is None and n.get("parentDeclContextId"):
+                # out-of-line member definition: recover the class qualifier from the declarator text
+                b = body(n)
+                head = text(n)
+                if b is not None:
+                    head = head[: max(0, len(head) - len(text(b)))]
+                ms = list(re.finditer(r"(\w+)\s*<[^<>;{}()]*>\s*::\s*(?:template\s+)?(?:~?\w+|operator\s*[^\s(]+|operator\s*\(\s*\))\s*\(", head, re.S))
+                if ms:
+                    cls = ms[-1].group(1)
+                    q = prefix + [cls, name if not name.startswith(cls + "<") else cls]
             d = Decl("::".join(q), n, pattern, parent)
             out.append(d)
         elif k in ("VarDecl", "FieldDecl", "VarTemplateDecl", "TypeAliasDecl", "TypeAliasTemplateDecl", "FriendDecl"):
